@@ -14,6 +14,7 @@
  *                                      first, like at every call.  (qsend.c's sig= delivers the signal inside a select that then
  *                                      returns normally after the FULL timeout; with that alone a signal never reaches a daemon
  *                                      that is still far from its next wake-up time.)
+ *   slow=<n>                           every answer of qmail-clean takes n seconds: virtual time passes inside the do-phase of the loop
  *   adv=<n>                            virtual time also passes while the daemon works: after every select call that returns
  *                                      normally the clock moves on by a pseudo-random 0..n seconds (a function of the call
  *                                      number).  Gives messages that arrive close together distinct birth and retry times.
@@ -24,6 +25,9 @@
  *        distinct due times, entries removed and re-inserted in many orders), ALRM/HUP/TERM both ways (sig= and intr=) at
  *        selects drawn from the WHOLE run (busy and idle phases), clean stops and crashes followed by a restart on the queue of
  *        deferred messages (pqstart rebuilds the heaps);
+ *   r/120 (at least 2) restart sweeps: a message whose deliveries are in flight, TERM at each of the following 8 selects, and a second
+ *        message whose injection completes 0..2 selects after the TERM - while daemon #1 drains (the pull succeeds into the descriptor
+ *        of a process that ignores it and exits) - then daemon #2 starts on that queue: one run per (TERM point, arrival offset);
  *   r/40 interrupt sweeps: a deferred-queue base run without signals, then one run per select point with SIGALRM (sometimes
  *        SIGHUP) interrupting exactly that select: every select at which the daemon was about to sleep with messages queued,
  *        every select next to a command/report/arrival, and every 16th other one (capped, spread evenly).
@@ -32,7 +36,8 @@
 #include "sim.h"
 static int (*c16_inner)(simproc *, int, fd_set *, fd_set *, struct timeval *);
 static int c16_inc_serial;               /* bumped at every start of an incarnation of the daemon */
-static void c16_globals_restore(void) { c16_inc_serial++; sim_globals_restore(); }
+static void c16_parse_keys(void);
+static void c16_globals_restore(void) { c16_inc_serial++; sim_globals_restore(); c16_parse_keys(); }
 #define main qsend_main
 #define sim_select_hook c16_inner        /* qsend.c's `sim_select_hook = daemon_select;` installs the inner hook */
 #define sim_globals_restore c16_globals_restore   /* start_incarnation() announces itself */
@@ -43,25 +48,29 @@ static void c16_globals_restore(void) { c16_inc_serial++; sim_globals_restore();
 #include "c16_snap.h"
 
 /* ---- the keys intr= and adv= ---- */
-static struct { int at, sig, pm; } c16_in[12]; static int c16_nin, c16_adv;
+static struct { int at, sig, pm; } c16_in[12]; static int c16_nin, c16_adv, c16_slow;
 static int c16_sel, c16_seen_inc;
 static void c16_parse_keys(void) {
-  c16_nin = 0; c16_adv = 0;
+  c16_nin = 0; c16_adv = 0; c16_slow = 0;
   char tmp[1600]; snprintf(tmp, sizeof tmp, "%s", S.text); char *save = 0;
   for (char *t = strtok_r(tmp, " ", &save); t; t = strtok_r(0, " ", &save)) {
     if (!strncmp(t, "adv=", 4)) c16_adv = atoi(t + 4);
+    else if (!strncmp(t, "slow=", 5)) c16_slow = atoi(t + 5);
     else if (!strncmp(t, "intr=", 5)) { char *s2 = 0;
       for (char *u = strtok_r(t + 5, ",", &s2); u && c16_nin < 12; u = strtok_r(0, ",", &s2)) { char c; int at, pm = 0;
         if (sscanf(u, "%d:%c:%d", &at, &c, &pm) >= 2) { c16_in[c16_nin].at = at; c16_in[c16_nin].sig = c; c16_in[c16_nin].pm = pm < 0 ? 0 : pm > 1000 ? 1000 : pm; c16_nin++; } } }
   }
 }
 
+/* slow=<n>: every answer of qmail-clean takes n seconds (virtual time passes INSIDE the do-phase of qmail-send's loop) */
+static void c16_gate(simproc *p, const char *what) { if (c16_slow > 0 && p->idx == 1 && !strcmp(what, "write")) W.clock += c16_slow; }
+
 /* what the base run of a sweep looked like (first incarnation): per select, was the daemon about to sleep, and was anything queued */
 static unsigned char c16_idle[MAXSEL], c16_queued[MAXSEL]; static int c16_nsel1;
 
 static int c16_select(simproc *p, int nfds, fd_set *r, fd_set *w, struct timeval *tv) {
   if (p->idx != 0) return c16_inner ? c16_inner(p, nfds, r, w, tv) : 0;
-  if (c16_seen_inc != c16_inc_serial) { c16_seen_inc = c16_inc_serial; c16_sel = 0; c16_parse_keys(); }
+  if (c16_seen_inc != c16_inc_serial) { c16_seen_inc = c16_inc_serial; c16_sel = 0; }
   c16_sel++;
   c16_snapshot(p, nfds, r, w, tv);
   if (incarnation == 1 && c16_sel < MAXSEL) {
@@ -104,6 +113,7 @@ static void gen_deferred(char *o, size_t osz, int signals) {
   }
   n += snprintf(o + n, osz - n, " out=%s ord=%d cl=%d cr=%d sl=%d sr=%d", outscript(out, 16, "ZZZZZZKKD"), (int)h_below(3), 1 + (int)h_below(4), 1 + (int)h_below(4), 1 + (int)h_below(5), 1 + (int)h_below(5));
   n += snprintf(o + n, osz - n, " adv=%d", (int[]){0, 0, 1, 2, 7, 40}[h_below(6)]);
+  if (h_below(4) == 0) n += snprintf(o + n, osz - n, " slow=%d", (int[]){1, 3, 10, 60}[h_below(4)]);
   if (h_below(6) == 0) n += snprintf(o + n, osz - n, " life=%d", (int[]){2000, 7200, 100000}[h_below(3)]);
   if (h_below(8) == 0) n += snprintf(o + n, osz - n, " bf=%s", (const char *[]){"1", "10", "01"}[h_below(3)]);
   int hor = at + 150 + (int)h_below(300);
@@ -139,8 +149,24 @@ static void sweep_intr(char *base, int cap, int variants) {
   }
 }
 
+/* restart sweep: injection completes while the previous daemon drains after TERM; the restarted daemon must find it */
+static void sweep_restart(char *line, size_t osz) {
+  char out[24]; int loc = h_below(2), nr = 2 + h_below(3), t0 = h_below(3) == 0 ? 0 : 96 + (int)h_below(40);
+  int first = t0 ? t0 : 1;            /* a message in the queue at start is taken over in the first scan */
+  char head[300], tail[200]; size_t n = 0;
+  n += snprintf(head + n, sizeof head - n, "m=s@src.example:");
+  for (int j = 0; j < nr; j++) n += snprintf(head + n, sizeof head - n, "%s%s", j ? "," : "", (loc ? c16_loc : c16_rem)[j % 3]);
+  if (t0) n += snprintf(head + n, sizeof head - n, "@%d", t0);
+  snprintf(tail, sizeof tail, " out=%s ord=%d cl=%d cr=%d sl=%d sr=%d hold=%d adv=%d", outscript(out, 6, "KKZZD"), (int)h_below(3), 1 + (int)h_below(4), 1 + (int)h_below(4),
+           1 + (int)h_below(5), 1 + (int)h_below(5), (int[]){0, 2, 99}[h_below(3)], (int[]){0, 0, 1}[h_below(3)]);
+  for (int k = first + 1; k <= first + 8; k++) for (int d = 0; d < 3; d++) {
+    snprintf(line, osz, "%s;x@h.example:%s@%d%s term=%d hor=%d", head, (h_below(2) ? c16_loc : c16_rem)[h_below(3)], k + d, tail, k, k + 260);
+    run_line(line);
+  }
+}
+
 int main(int argc, char **argv) {
-  sim_select_hook = c16_select;
+  sim_select_hook = c16_select; sim_gate_hook = c16_gate;
   int rc = qsend_main(argc, argv);
   if (rc || (argc > 1 && !strcmp(argv[1], "-"))) return rc;
   int nrandom = h_argi(argc, argv, 1, 100);
@@ -148,13 +174,14 @@ int main(int argc, char **argv) {
   int shard = h_argi(argc, argv, 3, 0), nshards = h_argi(argc, argv, 4, 1);
   int thorough = nrandom >= 8000;
   char *line = malloc(4000);
-  int cnt[2] = { thorough ? nrandom / 4 : nrandom / 2, thorough ? nrandom / 80 : nrandom / 40 };
-  for (int f = 0, r = 0; f < 2; f++) for (int i = 0; i < cnt[f]; i++, r++) {
+  int cnt[3] = { thorough ? nrandom / 4 : nrandom / 2, thorough ? nrandom / 80 : nrandom / 40, nrandom / 120 };
+  for (int f = 0, r = 0; f < 3; f++) for (int i = 0; i < cnt[f]; i++, r++) {
     if ((i + 7 + 3 * f) % nshards != shard) continue;
     h_seed(seed * 1000003ull + 500000000ull + r);
     switch (f) {
       case 0: gen_deferred(line, 1500, i % 8 != 0); run_line(line); break;
       case 1: gen_deferred(line, 1500, 0); sweep_intr(line, thorough ? 60 : 24, thorough || i % 2); break;
+      case 2: sweep_restart(line, 1500); break;
     }
   }
   fflush(h_out);
